@@ -13,7 +13,7 @@ META = {
     "explanation": (
         "Static analysis in the byte-concatenation domain: D1 serialize returns RTCM_HDR ‖ len2bytes(P) ‖ P ‖ crc2bytes(RTCM_HDR ‖ len2bytes(P) ‖ P) with P the stored payload, "
         "RTCM_HDR folding to b'\\xd3', len2bytes = len(x).to_bytes(2,'big'), crc2bytes = calc_crc24q(x).to_bytes(3,'big'); D2 writer/reader agreement: the writer's part sizes "
-        "[1,2,n,3] equal the reader's request script and the static parser's slice constants, byte order agrees with the reader's length form (shared C01-D2/D5); "
+        "[1,2,n,3] agree with the static parser's slice constants (shared C01-D5); "
         "D3 the payload is stored once, verbatim, and the getter returns the stored object; D4 the repr template parses as a construction of the enclosing class with the "
         "payload keyword and the stored payload as its only hole; plus the shared CRC transfer function (C08-D1). Equality of attribute values after a round trip follows from determinism (C13), not decided here."
     ),
@@ -100,10 +100,7 @@ def run(eng, ctx):
     ctx.check(hdr == bytes([fr["preamble"]]), "C07.D1", "rtcmtypes_core.RTCM_HDR", "preamble constant", expected=repr(bytes([fr["preamble"]])), found=repr(hdr), file=eng.repo.relpath("rtcmtypes_core"), line=0)
 
     # ---------------- D2 writer/reader agreement
-    ctx.rule("C07.D2", "writer part sizes [1, 2, n, 3] = reader request script and parser slice constants (shared reader obligations)")
-    m = SH.ReaderModel(eng)
-    gate = SH.header_gate(eng, ctx, "C01.D1", m)
-    SH.read_script(eng, ctx, "C01.D2", gate)
+    ctx.rule("C07.D2", "writer part sizes [1, 2, n, 3] agree with the static parser's slice constants (3, -3) (shared C01-D5); the stream reader's framing is not part of this property")
     SH.payload_slice(eng, ctx, "C01.D5")
     ctx.check(1 + (fr["header_bytes"] - 1) == fr["header_bytes"] and crcw == fr["crc_bytes"], "C07.D2", "oracle", "framing constants consistent", expected="1+2 = 3 header bytes, 3 CRC bytes", found=f"{fr['header_bytes']}, {fr['crc_bytes']}", file="oracle/frames.json", line=0)
     SH.crc_transfer(eng, ctx, "C08.D1")
